@@ -40,7 +40,10 @@ type c06Step struct {
 type c06Obs struct {
 	Steps     []c06Step `json:"steps"`
 	Bystander bool      `json:"bystander"`
-	Err       string    `json:"err,omitempty"`
+	// Leak: the SUBSCRIBE that was a protocol error (connection closed) left a subscription behind: after a
+	// reconnect of the durable session a publish to one of ITS filters was delivered
+	Leak bool   `json:"leak,omitempty"`
+	Err  string `json:"err,omitempty"`
 }
 
 type c06Prop struct{}
@@ -175,7 +178,13 @@ func c06Build(ver mqttp.ProtocolVersion, pk c06Pkt, k int) ([]byte, error) {
 	switch mqttp.Type(pk.T) {
 	case mqttp.CONNECT:
 		c := mqttp.NewConnect(ver)
-		c.SetClean(true)
+		// a fresh but DURABLE session: what a rejected packet may have left behind is visible after a reconnect
+		if ver == mqttp.ProtocolV50 {
+			c.SetClean(true)
+			_ = c.PropertySet(mqttp.PropertySessionExpiryInterval, uint32(3600))
+		} else {
+			c.SetClean(false)
+		}
 		_ = c.SetClientID([]byte("c06"))
 		if pk.Flag {
 			if ver == mqttp.ProtocolV50 {
@@ -323,6 +332,7 @@ func (p *c06Prop) Run(ci interface{}) interface{} {
 	cl := b.Dial()
 	cl.Ver = ver
 	connected := false
+	accepted := map[string]bool{}
 	for k, pk := range c.Pkts {
 		st := c06Step{Resp: [][3]int{}}
 		raw, err := c06Build(ver, pk, k)
@@ -400,7 +410,33 @@ func (p *c06Prop) Run(ci interface{}) interface{} {
 		}
 	done:
 		obs.Steps = append(obs.Steps, st)
+		// filters this session holds, from the acknowledgements it has seen
+		for _, rsp := range st.Resp {
+			if rsp[0] == 9 && pk.T == 8 {
+				for i := 0; i < pk.NF; i++ {
+					accepted[c06Filter(pk, i)] = true
+				}
+			}
+			if rsp[0] == 11 && pk.T == 10 {
+				for i := 0; i < pk.NF; i++ {
+					delete(accepted, c06Filter(pk, i))
+				}
+			}
+		}
 		if st.Closed || obs.Err != "" {
+			if st.Closed && connected && pk.T == 8 && obs.Err == "" {
+				// "closes the connection and has no other effect": none of the filters of the rejected
+				// SUBSCRIBE may be subscribed now (unless an earlier, accepted SUBSCRIBE holds it)
+				var forbidden []string
+				for i := 0; i < pk.NF; i++ {
+					if f := c06Filter(pk, i); !accepted[f] {
+						forbidden = append(forbidden, f)
+					}
+				}
+				if len(forbidden) > 0 {
+					obs.Leak = c06Leak(b, ver, forbidden)
+				}
+			}
 			break
 		}
 	}
@@ -411,6 +447,48 @@ func (p *c06Prop) Run(ci interface{}) interface{} {
 		obs.Bystander = by.WaitFor(5*time.Second, func() bool { return len(by.Pubs) >= 1 })
 	}
 	return obs
+}
+
+func c06Filter(pk c06Pkt, i int) string {
+	fs := pk.Fs
+	if len(fs) == 0 {
+		fs = []int{0, 1, 2}
+	}
+	return fmt.Sprintf("s/%d", fs[i%len(fs)])
+}
+
+// c06Leak reconnects the durable session c06 (no clean start) and publishes to the given topics
+func c06Leak(b *Broker, ver mqttp.ProtocolVersion, topics []string) bool {
+	rc := b.Dial()
+	o := ConnectOpts{ID: "c06", Ver: ver, Clean: false}
+	if ver == mqttp.ProtocolV50 {
+		e := uint32(3600)
+		o.Expiry = &e
+	}
+	if _, err := rc.Connect(o); err != nil {
+		return false
+	}
+	a := rc.Auto(false)
+	hc := b.Dial()
+	if _, err := hc.Connect(ConnectOpts{ID: "leakhelper", Ver: mqttp.ProtocolV311, Clean: true}); err != nil {
+		return false
+	}
+	for _, t := range topics {
+		_ = hc.Send(mkPublish(mqttp.ProtocolV311, t, []byte{0x7E}, 0, false, 0))
+	}
+	// barrier: a QoS1 publish of the helper acknowledged after the QoS0 ones were routed, then a ping of a
+	h := hc.Auto(false)
+	_ = h.SendL(mkPublish(mqttp.ProtocolV311, "leak/barrier", []byte{1}, 1, false, 77))
+	h.WaitFor(5*time.Second, func() bool { return len(h.Others) >= 1 })
+	pingBarrier(a)
+	a.mu.Lock()
+	defer a.mu.Unlock()
+	for _, m := range a.Pubs {
+		if len(m.Payload()) == 1 && m.Payload()[0] == 0x7E {
+			return true
+		}
+	}
+	return false
 }
 
 func (p *c06Prop) Suspect(oi interface{}) bool { return oi.(*c06Obs).Err != "" }
@@ -428,7 +506,7 @@ func (p *c06Prop) Coq(ci interface{}, oi interface{}) string {
 		}
 		steps[i] = fmt.Sprintf("(mkStep (mkP %s %d %d %d %s) %s %s)", names[pk.T], pk.ID, pk.NF, pk.QoS, cBool(pk.Flag), cList(rs), cBool(s.Closed))
 	}
-	return fmt.Sprintf("(mkCase (mkO %s %s %s) %s %s %s)", cBool(c.Ver == 5), cBool(c.Allowed), cBool(c.SubsID), cList(steps), cBool(o.Bystander), cBool(o.Err == ""))
+	return fmt.Sprintf("(mkCase (mkO %s %s %s) %s %s %s)", cBool(c.Ver == 5), cBool(c.Allowed), cBool(c.SubsID), cList(steps), cBool(o.Bystander && !o.Leak), cBool(o.Err == ""))
 }
 
 func (p *c06Prop) Class(ci interface{}, oi interface{}) (string, bool) {
